@@ -170,3 +170,9 @@ Example C04_discinfo_roundtrip_nonvacuous :
   text_line (F"x86_64") /\ dump_di d = Ok (join [c_nl] [F"1440000000.123"; F"Fedora 22"; F"x86_64"; F"1,2,3"]) /\
   load_di (join [c_nl] [F"1440000000.123"; F"Fedora 22"; F"x86_64"; F"1,2,3"]) = Ok d.
 Proof. exact di_roundtrip_nonvacuous. Qed.
+
+(* ... and with the hypotheses as an executable test, which the harness runs on every generated .discinfo object *)
+Theorem C04_discinfo_roundtrip_checked :
+  forall d text, di_applicableb d = true -> dump_di d = Ok text -> load_di text = Ok d.
+Proof. exact di_roundtrip_checked. Qed.
+Print Assumptions C04_discinfo_roundtrip_checked.
